@@ -2,7 +2,7 @@
    C14: the certificate chain stored by the leader aggregator (no crash in the history).
    Theorems named *_any hold for every history, Crash events of every cut included (C15);
    C14_T5_nocut holds for every history without [Crash CutCertInserted]. *)
-From MV Require Import Base.Prelude C14.Model C14.Spec C14.Proofs1 C14.Proofs2 C14.Corollaries.
+From MV Require Import Base.Prelude C14.Model C14.Spec C14.Proofs1 C14.Proofs2 C14.Proofs3 C14.Proofs4 C14.Corollaries.
 Open Scope N_scope.
 
 (* vocabulary *)
@@ -45,6 +45,18 @@ Theorem C14_T3_any : forall k all l,
             walk (s_certs (run_st k all l)) (S i) i = Some 0%nat.
 Proof. exact t3_any. Qed.
 
+(* T4: a certificate of epoch e is made under the registrations of epoch e-1 and commits to those of
+   epoch e; its signers are among its key's parties.  Inv2 = supporting invariants (epoch data, runtime
+   state, open messages: epochs, next key, stored signers are members) *)
+Theorem C14_T4 : forall k all l, no_crash l -> keys_ok (s_certs (run_st k all l)) (s_regs (run_st k all l)).
+Proof. exact t4. Qed.
+Theorem C14_T4_any : forall k all l, keys_ok (s_certs (run_st k all l)) (s_regs (run_st k all l)).
+Proof. exact t4_any. Qed.
+Theorem C14_T4_support : forall k all l, no_crash l -> Inv2 (run_st k all l).
+Proof. exact t4_support. Qed.
+Theorem C14_T4_support_any : forall k all l, Inv2 (run_st k all l).
+Proof. exact inv2_any. Qed.
+
 (* T5: no signed entity is certified twice *)
 Theorem C14_T5 : forall k all l, no_crash l -> NoDup (cert_ents (s_certs (run_st k all l))).
 Proof. exact t5. Qed.
@@ -53,6 +65,64 @@ Proof. exact t5_nocut. Qed.
 Theorem C14_T5_flag : forall k all l, no_cert_cut l ->
   flag (s_certs (run_st k all l)) (s_oms (run_st k all l)) (s_env (run_st k all l)).
 Proof. exact t5_flag. Qed.
+
+(* T6: a certificate is only stored by the cycle of a Signing state, for the entity being signed, of the
+   current epoch, whose open message is neither certified nor expired (nor due) and carries a quorum;
+   [sealed] (Spec.v) lists the complete effect.  Holds in every state, reachable or not. *)
+Theorem C14_T6 : forall k s e, match e with Crash _ => False | _ => True end ->
+  (length (s_certs s) < length (s_certs (astep k s e)))%nat ->
+  e = Tick /\ sealed k None s (astep k s e).
+Proof. exact t6. Qed.
+Theorem C14_T6_any : forall k s e, (length (s_certs s) < length (s_certs (astep k s e)))%nat ->
+  is_cycle e /\ sealed k (cut_of e) s (astep k s e).
+Proof. exact t6_any. Qed.
+Theorem C14_T6_open_message : forall k c s s', sealed k c s s' ->
+  exists cur x o, s_rt s = Signing cur x /\ find_om (s_oms s) x = Some o /\
+                  om_cert o = false /\ om_exp o = false /\ om_due o = false /\ quorum k (om_sigs o) = true.
+Proof. exact sealed_not_due. Qed.
+
+(* T6 in reachable states, with the membership of the stored signers *)
+Theorem C14_T6_reachable : forall k all l e, no_crash l -> match e with Crash _ => False | _ => True end ->
+  (length (s_certs (run_st k all l)) < length (s_certs (astep k (run_st k all l) e)))%nat ->
+  e = Tick /\
+  exists cur x o crt,
+    s_rt (run_st k all l) = Signing cur x /\ en_epoch x = tp_epoch (s_env (run_st k all l)) /\
+    find_om (s_oms (run_st k all l)) x = Some o /\
+    om_cert o = false /\ om_exp o = false /\ om_due o = false /\ quorum k (om_sigs o) = true /\
+    (forall p ix, In (p, ix) (om_sigs o) ->
+                  mem p (reg_at (s_regs (run_st k all l)) (en_epoch x - 1)) = true) /\
+    s_certs (astep k (run_st k all l) e) = s_certs (run_st k all l) ++ [crt] /\
+    c_ent crt = Some x /\ c_epoch crt = en_epoch x.
+Proof. exact t6_full_nocrash. Qed.
+Theorem C14_T6_reachable_any : forall k all l e,
+  (length (s_certs (run_st k all l)) < length (s_certs (astep k (run_st k all l) e)))%nat ->
+  is_cycle e /\
+  exists cur x o crt,
+    s_rt (run_st k all l) = Signing cur x /\ en_epoch x = tp_epoch (s_env (run_st k all l)) /\
+    find_om (s_oms (run_st k all l)) x = Some o /\
+    om_cert o = false /\ om_exp o = false /\ om_due o = false /\ quorum k (om_sigs o) = true /\
+    (forall p ix, In (p, ix) (om_sigs o) ->
+                  mem p (reg_at (s_regs (run_st k all l)) (en_epoch x - 1)) = true) /\
+    s_certs (astep k (run_st k all l) e) = s_certs (run_st k all l) ++ [crt] /\
+    c_ent crt = Some x /\ c_epoch crt = en_epoch x.
+Proof. exact t6_full. Qed.
+
+(* T7: an epoch gap blocks the state machine and no certificate is stored while it is blocked *)
+Theorem C14_T7_gap_blocks : forall k s prev le, chain (s_certs s) ->
+  s_rt s = Idle prev -> last_epoch (s_certs s) = Some le -> le + 1 < tp_epoch (s_env s) ->
+  precompute_fails s prev = false ->
+  s_rt (astep k s Tick) = BlockedGap (s_env s) /\ s_certs (astep k s Tick) = s_certs s /\
+  forall c, s_certs (astep k s (Crash c)) = s_certs s /\
+            s_rt (astep k s (Crash c)) = BlockedGap (s_env s).
+Proof. exact t7_gap_blocks. Qed.
+Theorem C14_T7_reachable_chain : forall k all l, chain (s_certs (run_st k all l)).
+Proof. exact chain_any. Qed.
+Theorem C14_T7_blocked_no_cert : forall k s e since,
+  s_rt s = BlockedGap since -> s_certs (astep k s e) = s_certs s.
+Proof. exact t7_blocked_no_cert. Qed.
+Theorem C14_certs_grow_only_signing : forall k s e,
+  s_certs (astep k s e) <> s_certs s -> exists cur x, s_rt s = Signing cur x.
+Proof. exact certs_grow_only_signing. Qed.
 
 (* T8: signed-entity rows reference the certificate of their entity, one row per entity *)
 Theorem C14_T8 : forall k all l, no_crash l ->
